@@ -201,13 +201,20 @@ func (service *TranslatorService) DecryptSearchable(ctx context.Context, data, h
 		dataToDecrypt = append(hash, data...)
 	}
 	logger.Debugln("Decrypt AcraStruct")
-	hashPart, containerData := hmac.ExtractHashAndData(dataToDecrypt)
-	if hashPart == nil {
-		return nil, ErrCantDecrypt
-	}
 	accessContext := base.NewAccessContext(base.WithClientID(clientID))
 	dataCtx := base.SetAccessContextToContext(ctx, accessContext)
 	dataContext := &base.DataProcessorContext{Keystore: service.data.Keystorage, Context: dataCtx}
+	hashPart, containerData := hmac.ExtractHashAndData(dataToDecrypt)
+	if hashPart == nil {
+		// no hash in front of the data: nothing to decrypt, but it still may be a poison record
+		// (same as DecryptSymSearchable does)
+		logger.WithField(logging.FieldKeyEventCode, logging.EventCodeErrorTranslatorCantDecryptAcraStruct).
+			Errorln("Can't split ciphertext to hash and encrypted data")
+		if _, _, err := service.poisonDetector.OnColumn(dataCtx, dataToDecrypt); err != nil {
+			logger.WithField(logging.FieldKeyEventCode, logging.EventCodeErrorDecryptorCantCheckPoisonRecord).WithError(err).Errorln("Can't check for poison record with AcraStruct, possible missing Poison record decryption key")
+		}
+		return nil, ErrCantDecrypt
+	}
 	handler, err := crypto.GetHandlerByEnvelopeID(crypto.AcraStructEnvelopeID)
 	if err != nil {
 		return nil, ErrCantDecrypt
